@@ -48,9 +48,23 @@ def multigraph_scenario(rnd, sid):
     H = s["H"]
     steps = rnd.randint(4, 7)
     s["Dur"] = H * steps
+    # some links are valves (closed, active or open at the start) that controls close, open or (re)activate: a valve that
+    # becomes Active must reconnect what lies behind it just like one that is opened
+    vidx = []
+    if rnd.random() < 0.5:
+        for k in rnd.sample(range(len(links)), rnd.choice([1, 1, 2])):
+            l = links[k]
+            jj = l["a"].startswith("J") and l["b"].startswith("J")
+            vt = rnd.choice(["TCV", "PRV", "FCV", "PSV"]) if jj else "TCV"
+            setting = {"PRV": netgen.rgrid(rnd, 10, 40, 2.5), "PSV": netgen.rgrid(rnd, 10, 40, 2.5),
+                       "FCV": netgen.rgrid(rnd, 0.002, 0.02, 0.002), "TCV": netgen.rgrid(rnd, 5, 100, 5)}[vt]
+            links[k] = {"name": l["name"], "type": vt, "a": l["a"], "b": l["b"], "diam": l["diam"], "minor": 0.0, "setting": setting,
+                        "init": rnd.choice([0, 0, 2, 1])}
+            vidx.append(k + 1)
     for _ in range(rnd.randint(1, 5)):
+        k = rnd.choice(vidx) if vidx and rnd.random() < 0.5 else rnd.randint(1, len(links))
         s["ctl"].append({"kind": "sim", "thr": rnd.choice([0, H, 2 * H, 2 * H + 900, 3 * H, 4 * H + 1]), "rep": 0,
-                         "link": rnd.randint(1, len(links)), "val": rnd.choice([0, 0, 1]), "prio": 3})
+                         "link": k, "val": rnd.choice([0, 0, 1, 2, 2]) if k in vidx else rnd.choice([0, 0, 1]), "prio": 3})
     return s
 
 
